@@ -401,9 +401,34 @@ func Register() {
 				l = append(l, oneLine(tl.Src(st)))
 			}
 			e.P("def payloadBody : List String := %s", tl.LeanStrList(l))
+			// the padding strip of RFC 3550 5.1 as the model has it: the count octet n is honoured
+			// when 0 < n <= size of the area after the header (a padding-only packet included)
+			cs := Conds(fd)
+			strips := has(cs, "if p.Padding && end > p.PayloadOffset") && has(cs, "if n > 0 && n <= end-p.PayloadOffset")
+			inits, subs, rets := 0, 0, 0
+			ast.Inspect(fd.Body, func(n ast.Node) bool {
+				switch x := n.(type) {
+				case *ast.IfStmt:
+					if x.Init != nil && oneLine(tl.Src(x.Init)) == "n := int(p.Data[end-1])" {
+						inits++
+					}
+				case *ast.AssignStmt:
+					if oneLine(tl.Src(x)) == "end -= n" {
+						subs++
+					}
+				case *ast.ReturnStmt:
+					if len(x.Results) == 1 && tl.Src(x.Results[0]) == "p.Data[p.PayloadOffset:end]" {
+						rets++
+					}
+				}
+				return true
+			})
+			e.P("/-- Payload() strips the RTP padding: count octet n honoured when 0 < n <= area after the header -/")
+			e.P("def payloadStripsPadding : Bool := %s", tl.LeanBool(strips && inits == 1 && subs == 1 && rets == 1))
 		} else {
 			e.Unknown("Packet.Payload")
 			e.P("def payloadBody : List String := []")
+			e.P("def payloadStripsPadding : Bool := false")
 		}
 	})
 }
